@@ -580,6 +580,84 @@ pub fn run(ctx: &Ctx) {
             }
         },
     );
+    // products and quotients of two compound quantities: the unit of the result, read back through
+    // math.unit(), must reduce to the product / quotient of the operands' dimensions
+    let sub_p = "compound-products";
+    let parse_unit = |u: &str| -> Option<(Vec<String>, Vec<String>)> {
+        let u = u.trim_matches('"');
+        // a pure denominator is printed as `s^-1` or `(px*s)^-1`
+        let inverted = u.ends_with("^-1");
+        let u = u.trim_end_matches("^-1");
+        let (n, d) = match u.split_once('/') {
+            Some((a, b)) => (a, b),
+            None => (u, ""),
+        };
+        let cls = |x: &str| -> Option<Vec<String>> {
+            let x = x.trim().trim_start_matches('(').trim_end_matches(')');
+            if x.is_empty() || x == "1" {
+                return Some(vec![]);
+            }
+            x.split('*').map(|t| { let t = t.trim(); if t.is_empty() { None } else { Some(factor(t).map(|f| f.0.to_string()).unwrap_or_else(|| t.to_string())) } }).collect()
+        };
+        let (mut n, mut d) = (cls(n)?, cls(d)?);
+        if inverted {
+            std::mem::swap(&mut n, &mut d);
+        }
+        let mut i = 0;
+        while i < n.len() {
+            if let Some(j) = d.iter().position(|x| *x == n[i]) {
+                d.remove(j);
+                n.remove(i);
+            } else {
+                i += 1;
+            }
+        }
+        n.sort();
+        d.sort();
+        Some((n, d))
+    };
+    par(
+        ctx,
+        sub_p,
+        ns * ns,
+        |i| json!({"a": format!("{:?}", shapes[(i / ns) as usize]), "b": format!("{:?}", shapes[(i % ns) as usize])}),
+        |i, l| {
+            let (an, ad) = &shapes[(i / ns) as usize];
+            let (bn, bd) = &shapes[(i % ns) as usize];
+            let ea = build(an, ad, 6.0);
+            let eb = build(bn, bd, 2.0);
+            for (op, label) in [("$a * $b", "product"), ("math.div($a, $b)", "quotient")] {
+                let src = format!("@use \"sass:math\";\n$a: {}; $b: {};\na{{u: math.unit({})}}", ea, eb, op);
+                l.evals += 1;
+                let o = compile(&src, &Cfg::scss());
+                l.outcome(o.digest());
+                l.validated += 1;
+                // reference dimension of the result
+                let (mut rn, mut rd): (Vec<&str>, Vec<&str>) = (an.clone(), ad.clone());
+                if label == "product" {
+                    rn.extend(bn.iter());
+                    rd.extend(bd.iter());
+                } else {
+                    rn.extend(bd.iter());
+                    rd.extend(bn.iter());
+                }
+                let (_, wn, wd) = reduce(&rn, &rd, 1.0);
+                match &o {
+                    Outcome::Ok(c) => {
+                        l.nontrivial += 1;
+                        let got = first_decl_value(c).unwrap_or_default();
+                        match parse_unit(&got) {
+                            Some((gn, gd)) if gn == wn && gd == wd => {}
+                            other => ctx.violation(sub_p, &format!("compound-{}:{}", label, src.replace('\n', " ")), &format!("unit of the {} is {} (reduced {:?}); the dimensions of the operands give {:?}/{:?}", label, got, other, wn, wd), json!({"input": src})),
+                        }
+                    }
+                    other => ctx.violation(sub_p, &format!("compound-{}:{}", label, src.replace('\n', " ")), &format!("{} of two compound quantities failed: {}", label, other.brief()), json!({"input": src})),
+                }
+            }
+        },
+    );
+    ctx.bound(sub_p, "product and quotient of every ordered pair of compound shapes: reduced dimension of math.unit(result) against the reference", true);
+    ctx.sample(sub_p, json!({"input": "$a: math.div(6, 1px); $b: (2px * 1em); a{u: math.unit($a * $b)}", "expected": "em"}));
     ctx.bound(sub, if quick { "all ordered pairs of compound units with <= 2 numerator and <= 1 denominator factors over {px,in,s,ms,deg,em}" } else { "all ordered pairs of compound units with <= 2 numerator and <= 2 denominator factors over {px,in,s,ms,deg,em}" }, true);
     ctx.sample(sub, json!({"input": "$a: math.div((6px * 1in), 1s); $b: math.div((2in * 1px), 1ms); a{q: math.div($a, $b)}"}));
     // emitting a compound unit is an error
